@@ -113,9 +113,24 @@ CLAIMED["C15"] = (
     "DESIGN.md section 5, C15",
 )
 
+CLAIMED["C06"] = (
+    "cache",
+    "exploration",
+    "Two widget trees are built from one generated spec and driven through the same seeded history of render/rows calls on the "
+    "root or any subtree (sizes, focus), public mutators, contents/walker edits, focus changes, key and mouse input, and canvas "
+    "lifetime events (hold a returned canvas, drop one, gc.collect()). One tree lives with CanvasCache as an application's tree "
+    "does; on the twin every widget is _invalidate()d before every operation, i.e. it is urwid with the cache emptied first. "
+    "Content, cursor, rows(), input results and exceptions must agree at every step, and every held canvas is re-read after every "
+    "later step (cached canvases are never modified). Sampling, not proof.",
+    "Sound as long as urwid is deterministic given the call sequence; run boundaries are normalised away; Scrollable trees are "
+    "masked by a known finding (state resolved inside render()).",
+    "deterministic simulation: seeded render/mutation/canvas-lifetime schedules, cached tree vs cache-defeated twin (differential oracle)",
+    "DESIGN.md section 5, C06",
+)
+
 PENDING = {
     p: "claimed in DESIGN.md; its simulation engine is not built yet in this tree, so no check is registered for it at this commit"
-    for p in ("C06", "C07", "C08", "C10", "C20")
+    for p in ("C07", "C08", "C10", "C20")
 }
 
 
